@@ -266,12 +266,12 @@ def iana_spec_text(ename, ents):
 def rw_mut_self(src, counts):
     res = []
     pos = 0
-    for m in re.finditer(r'\(mut self\b', src):
+    for m in re.finditer(r'\((\s*)mut self\b', src):
         if m.start() < pos:
             continue
         counts['R2'] += 1
         res.append(src[pos:m.start()])
-        res.append('(self')
+        res.append('(' + m.group(1) + 'self')
         i = src.index('{', m.end())
         j = match_brace(src, i)
         res.append(src[m.end():i + 1])
@@ -973,6 +973,29 @@ def generate(repo=REPO, contracts_dir=None, with_contracts=True, degrade=()):
         else:
             g = c
         g = add_auto(g, registries)
+        # functions the proofs TRUST (external_body in the sidecar / by rewrite): the trust is in the body that was reviewed;
+        # if the current body differs from the sidecar's base text the function is reported as changed
+        if with_contracts and os.path.exists(side):
+            base_plain = split_sidecar(open(side).read())[0]
+            for tm in re.finditer(r'#\[verifier::external_body\](?! /\*degraded\*/)\s*(?:' + re.escape(GCLOSE) + r')?(?:\s|///[^\n]*\n|#\[[^\]]*\])*((?:pub(?:\([a-z]+\))? )?fn\s+([A-Za-z0-9_]+))', g):
+                nm = tm.group(2)
+                def body_of(txt, name, plain_txt):
+                    outb = []
+                    for fm in re.finditer(r'\bfn\s+%s\b' % re.escape(name), plain_txt):
+                        b = plain_txt.find('{', fm.end())
+                        sc = plain_txt.find(';', fm.end())
+                        if b < 0 or (0 <= sc < b):
+                            continue
+                        try:
+                            e = match_brace(plain_txt, b)
+                        except Exception:
+                            continue
+                        outb.append(re.sub(r'\s+', '', re.sub(r'//[^\n]*', '', plain_txt[fm.start():e + 1])))
+                    return sorted(outb)
+                cur_b = body_of(g, nm, strip_generated(g).replace('#[verifier::external_body]', ''))
+                base_b = body_of(base_plain, nm, base_plain.replace('#[verifier::external_body]', ''))
+                if cur_b != base_b:
+                    info.setdefault('trusted_changed', []).append('%s::%s' % (m, nm))
         for dg in sorted(degrade, key=lambda x: (x[0], x[1], -x[2])):
             dm, dn, do = dg[:3]
             lvl = dg[3] if len(dg) > 3 else 1
